@@ -57,11 +57,11 @@ def g_tokens(maxlen, flags="n", tables=None, wrap=True):
 # ---------------------------------------------------------------------------------------------
 # G-pieces: exhaustive piece sequences for character data (C04) and attribute values (C05)
 # ---------------------------------------------------------------------------------------------
-TEXT_ENTITIES = [("e1", "E"), ("e2", "\r"), ("e3", "\nE"), ("e4", "E\r"), ("e5", "p\r\nq"), ("e6", "&e1;\n")]
+TEXT_ENTITIES = [("e0", ""), ("e1", "E"), ("e2", "\r"), ("e3", "\nE"), ("e4", "E\r"), ("e5", "p\r\nq"), ("e6", "&e1;\n")]
 # (source text, kind); kinds: lit, ref (character reference / predefined), cdata, ent
 TEXT_PIECES = [("a", "lit"), ("\n", "lit"), ("\r", "lit"), ("\t", "lit"),
                ("&#10;", "ref"), ("&#13;", "ref"), ("&#9;", "ref"), ("&#x41;", "ref"), ("&amp;", "ref"),
-               ("<![CDATA[x]]>", "cdata"), ("<![CDATA[\r]]>", "cdata"), ("<![CDATA[\n]]>", "cdata"),
+               ("<![CDATA[x]]>", "cdata"), ("<![CDATA[]]>", "cdata"), ("<![CDATA[\r]]>", "cdata"), ("<![CDATA[\n]]>", "cdata"),
                ("<![CDATA[\r\n]]>", "cdata")] + [("&%s;" % n, "ent") for n, _ in TEXT_ENTITIES]
 TEXT_DTD = "<!DOCTYPE r [" + "".join("<!ENTITY %s '%s'>" % (n, v) for n, v in TEXT_ENTITIES) + "]>"
 
@@ -84,9 +84,9 @@ def g_pieces_text(maxlen, positions=(0, 1, 2)):
     return out
 
 
-ATTR_ENTITIES = [("t", "\t"), ("c", "\r\n&#10;"), ("n", "&t;\r"), ("d", "&#13;&#10;")]
+ATTR_ENTITIES = [("z", ""), ("t", "\t"), ("c", "\r\n&#10;"), ("n", "&t;\r"), ("d", "&#13;&#10;")]
 ATTR_PIECES = ["a", " ", "\t", "\n", "\r", "&#9;", "&#10;", "&#13;", "&#x20;", "&amp;", "Q",
-               "&t;", "&c;", "&n;", "&d;"]
+               "&z;", "&t;", "&c;", "&n;", "&d;"]
 ATTR_DTD = "<!DOCTYPE r [" + "".join('<!ENTITY %s "%s">' % (n, v) for n, v in ATTR_ENTITIES) + "]>"
 
 
@@ -242,6 +242,17 @@ def g_ent_toplevel(n, flags=""):
             Case(ent_doc(decls, "<r a='" + "&g;" * n + "'/>"), flags, True, meta={"gen": "toplevel-attr", "n": n, "expect": "ok", "expect_len": 4 * n})]
 
 
+def g_ent_empty(flags=""):
+    """references to an entity with an empty value, many times, followed by other references"""
+    out = []
+    decls = [("z", ""), ("e", "v"), ("w", "<i a=\"&lt;\"/>")]
+    for k in (1, 2, 9, 10, 11, 12, 30):
+        out.append(Case(ent_doc(decls, "<r>" + "&z;" * k + "&e;</r>"), flags, True, meta={"gen": "empty-entity-text", "k": k, "expect": "ok", "expect_value": "v"}))
+        out.append(Case(ent_doc(decls, "<r a='" + "&z;" * k + "&e;'/>"), flags, True, meta={"gen": "empty-entity-attr", "k": k, "expect": "ok", "expect_value": "v"}))
+        out.append(Case(ent_doc(decls, "<r>" + "&z;" * k + "<i a='&lt;'/>&#13;</r>"), flags, True, meta={"gen": "empty-entity-then-refs", "k": k, "expect": "ok"}))
+    return out
+
+
 def g_ent_random(seed, n, flags=""):
     rnd = random.Random(seed)
     out = []
@@ -262,6 +273,39 @@ def g_ent_random(seed, n, flags=""):
         use = rnd.choice(["text", "attr"])
         body = "<r>&n0;</r>" if use == "text" else "<r a='&n0;'/>"
         out.append(Case(ent_doc(decls, body), flags, True, meta={"gen": "entgraph-" + use}))
+    return out
+
+
+# ---------------------------------------------------------------------------------------------
+# G-long: repeated constructs with counts around powers of two (thresholds, caches, fast paths)
+# ---------------------------------------------------------------------------------------------
+COUNTS = [2, 3, 7, 8, 9, 15, 16, 17, 31, 32, 33, 34, 63, 64, 65, 127, 128, 129, 255, 256, 257, 300]
+
+
+def g_long(flags="nc", counts=None):
+    out = []
+    ks = counts or COUNTS
+    dtd = "<!DOCTYPE r [<!ENTITY e 'y'><!ENTITY m '<i/>'><!ENTITY z ''>]>"
+    for k in ks:
+        exp_cd = "x" * k
+        fams = [
+            ("cdata-run", "<r>" + "<![CDATA[x]]>" * k + "</r>", "x" * k),
+            ("text-entity-run", dtd + "<r>" + "a&e;" * k + "</r>", "ay" * k),
+            ("text-ref-run", "<r>" + "a&#66;" * k + "</r>", "aB" * k),
+            ("text-cdata-alternating", "<r>" + "t<![CDATA[c]]>" * k + "</r>", "tc" * k),
+            ("empty-entity-run", dtd + "<r>" + "&z;" * k + "q</r>", "q"),
+            ("crlf-run", "<r>" + "a\r\n" * k + "</r>", "a\n" * k),
+        ]
+        for name, doc, text in fams:
+            out.append(Case(doc, flags, True, meta={"gen": "long-" + name, "k": k, "expect_content": ["Q 1 - x72", "X 2 " + spec.hexs(text)]}))
+        out.append(Case("<r>" + "<a/>" * k + "</r>", flags, True, meta={"gen": "long-siblings", "k": k}))
+        out.append(Case("<r>" + "<a>" * k + "</a>" * k + "</r>", flags, True, meta={"gen": "long-nesting", "k": k}))
+        out.append(Case(dtd + "<r>" + "&m;t" * k + "</r>", flags, True, meta={"gen": "long-entity-elements", "k": k}))
+        out.append(Case("<r " + " ".join("a%d='v%d'" % (i, i) for i in range(k)) + "/>", flags, True, meta={"gen": "long-attributes", "k": k}))
+        out.append(Case("<r " + " ".join("xmlns:p%d='u%d'" % (i, i) for i in range(k)) + "><p%d:x/></r>" % (k - 1), flags, True, meta={"gen": "long-ns-decls", "k": k}))
+        out.append(Case("<r>" + "<!--c-->" * k + "<?p v?>" * k + "</r>", flags, True, meta={"gen": "long-misc", "k": k}))
+        out.append(Case("<" + "n" * k + " " + "a" * k + "='" + "v" * k + "'>" + "t" * k + "</" + "n" * k + ">", flags, True, meta={"gen": "long-names", "k": k}))
+        out.append(Case("<r a='" + "x&#32;" * k + "' b='" + " \t" * k + "'/>", flags, True, meta={"gen": "long-attr-value", "k": k}))
     return out
 
 
